@@ -197,17 +197,19 @@ func checkProofs(t *rapid.T, tr kvTrie, keyOf func([]byte) []byte, model sortedM
 			want = model[string(k2)]
 		}
 		vstat.Label(fmt.Sprintf("tamper_%d", kind))
+		var got []byte
+		var err error
+		var pan interface{}
 		func() {
-			defer func() {
-				if r := recover(); r != nil {
-					vstat.Violation(t, P, "verifyproof-panic", "%s: VerifyProof panicked on tampered proof (kind %d): %v", tag, kind, r)
-				}
-			}()
-			got, _, err := trie.VerifyProof(root, claimKey, toDB(nodes))
-			if err == nil && !bytes.Equal(got, want) {
-				vstat.Violation(t, P, "proof-forged", "%s: tampered proof (kind %d) verifies a false claim: key %x -> %x, content has %x", tag, kind, claimKey, got, want)
-			}
+			// only the call under test runs inside recover(): rapid's Fatalf is itself a panic
+			defer func() { pan = recover() }()
+			got, _, err = trie.VerifyProof(root, claimKey, toDB(nodes))
 		}()
+		if pan != nil {
+			vstat.Violation(t, P, "verifyproof-panic", "%s: VerifyProof panicked on tampered proof (kind %d): %v", tag, kind, pan)
+		} else if err == nil && !bytes.Equal(got, want) {
+			vstat.Violation(t, P, "proof-forged", "%s: tampered proof (kind %d) verifies a false claim: key %x -> %x, content has %x", tag, kind, claimKey, got, want)
+		}
 		want = model[string(key)]
 	}
 }
